@@ -228,3 +228,91 @@ func (r *Report) UnsignedSubCensus(key string, roots []*ssa.Function, table []us
 	}
 	r.OK(key+"|summary", d, "-", fmt.Sprintf("%d unsigned subtractions: %d path-guarded, %d reviewed", total, guarded, total-guarded))
 }
+
+// NormalisedBeforeSquaring (C11.R7): in PriceToTick the value that enters the squaring loop (`r = r*r >> 31`) is, on
+// EVERY incoming path, the price shifted by an msb-derived count. An edge that carries the price unshifted (an else-if
+// ladder with a gap, seed C11-6: msb == 32 fell through) feeds an un-normalised mantissa into r*r, which overflows.
+func (r *Report) NormalisedBeforeSquaring(key, fnKey string) {
+	w := r.W
+	fn := w.Fn(fnKey)
+	d := "every path into the squaring loop of " + fnKey + " carries the price shifted by an msb-derived amount"
+	k := key + "|" + fnKey
+	if fn == nil {
+		r.Unres(k, d, "function not found")
+		return
+	}
+	w.FuncsAnalysed[fn] = true
+	var sq *ssa.BinOp
+	for _, b := range fn.Blocks {
+		for _, in := range b.Instrs {
+			if bo, ok := in.(*ssa.BinOp); ok && bo.Op == token.MUL && bo.X == bo.Y && isUnsigned(bo.Type()) {
+				sq = bo
+			}
+		}
+	}
+	if sq == nil {
+		r.Unres(k, d, "no r*r found")
+		return
+	}
+	loopPhi, ok := sq.X.(*ssa.Phi)
+	if !ok {
+		r.Unres(k, d, "the squared value is not a loop-carried variable")
+		return
+	}
+	// incoming values that do not depend on the square itself = the normalised mantissa
+	var entries []ssa.Value
+	var collect func(v ssa.Value, depth int)
+	seen := map[ssa.Value]bool{}
+	collect = func(v ssa.Value, depth int) {
+		if seen[v] || depth > 6 {
+			return
+		}
+		seen[v] = true
+		if p, ok := v.(*ssa.Phi); ok {
+			for _, e := range p.Edges {
+				if p == loopPhi && dependsOn(e, sq, 0) {
+					continue
+				}
+				collect(e, depth+1)
+			}
+			return
+		}
+		entries = append(entries, v)
+	}
+	collect(loopPhi, 0)
+	if len(entries) == 0 {
+		r.Unres(k, d, "no entry value of the loop variable found")
+		return
+	}
+	for i, e := range entries {
+		w.SitesExamined++
+		kk := fmt.Sprintf("%s|entry#%d", k, i)
+		bo, ok := e.(*ssa.BinOp)
+		t := Render(e)
+		if ok && (bo.Op == token.SHL || bo.Op == token.SHR) && Render(bo.X).Has("^param:price") && Render(bo.Y).Has("binop:-") {
+			r.OK(kk, d, w.posOr(bo.Pos(), fn), clip(t.String(), 100))
+		} else {
+			r.Bad(kk, d, w.FnPos(fn), "a path into the squaring loop carries "+clip(t.String(), 120)+", which is not the price shifted by an msb-derived count: the mantissa is not normalised to 32 bits on that path and r*r overflows")
+		}
+	}
+}
+
+func dependsOn(v ssa.Value, target ssa.Value, d int) bool {
+	if v == target {
+		return true
+	}
+	if d > 12 {
+		return false
+	}
+	if in, ok := v.(ssa.Instruction); ok {
+		if _, isPhi := v.(*ssa.Phi); isPhi && d > 0 {
+			return false
+		}
+		for _, op := range in.Operands(nil) {
+			if *op != nil && dependsOn(*op, target, d+1) {
+				return true
+			}
+		}
+	}
+	return false
+}
